@@ -596,6 +596,7 @@ func checkC01(c *Ctx) {
 	checkNilFuncCall(c)
 	checkMacroBudget(c)
 	checkSourcePos(c)
+	checkRound5Small(c, "C01")
 }
 
 // ---------------- recursion ----------------
